@@ -22,10 +22,10 @@ CRATE_RESULT_RE = re.compile(r'^std::result::Result<.*, error::Error>$')
 
 PRESERVING = {
     'map', 'map_err', 'and_then', 'ok_or', 'ok_or_else', 'or_else', 'map_or', 'map_or_else', 'transpose', 'copied', 'cloned',
-    'as_ref', 'as_mut', 'inspect', 'inspect_err',
+    'as_ref', 'as_mut', 'inspect', 'inspect_err', 'ok', 'err', 'flatten', 'zip', 'filter', 'and',
 }
 DEFAULTING = {
-    'unwrap_or', 'unwrap_or_default', 'unwrap_or_else', 'ok', 'err', 'unwrap_unchecked', 'or', 'is_ok_and', 'is_some_and', 'unwrap_or_unchecked',
+    'unwrap_or', 'unwrap_or_default', 'unwrap_or_else', 'unwrap_unchecked', 'or', 'is_ok_and', 'is_some_and', 'unwrap_or_unchecked',
 }
 TESTS = {'is_ok', 'is_err', 'is_some', 'is_none'}
 UNWRAPS = {'unwrap', 'expect'}
@@ -296,7 +296,13 @@ def consume_local(body, l, ty, depth=0):
         elif k == 'drop':
             pass
         elif k == 'agg':
-            classes.append(('stored', 'put into an aggregate'))
+            rv = how[2]
+            if (rv['agg'] == 'tuple' or (rv['agg'] == 'adt' and rv.get('variant') in ('Some', 'Ok'))) and not body.blocks[b]['stmts'][i]['pl']['p']:
+                idx = [n for n, o in enumerate(rv['ops']) if op_local(o) == l]
+                sub = _consume_tuple_field(body, how[1], idx[0], ty, depth + 1) if idx else None
+                classes.append(sub or ('stored', 'put into a tuple / wrapper that is not consumed field-wise'))
+            else:
+                classes.append(('stored', 'put into an aggregate'))
         else:
             classes.append(('other', str(k)))
     real = [c for c in classes if c[0] not in ()]
@@ -311,6 +317,47 @@ def consume_local(body, l, ty, depth=0):
     if worst[0] == 'unwrap' and tested:
         return ('guarded', worst[1])
     return worst
+
+
+def _is_field_k(proj, k):
+    ps = [e for e in proj if e != 'deref']
+    if len(ps) == 1 and isinstance(ps[0], dict) and ps[0].get('f') == k:
+        return True
+    if len(ps) == 2 and isinstance(ps[0], dict) and 'dc' in ps[0] and isinstance(ps[1], dict) and ps[1].get('f') == k:
+        return True
+    return False
+
+
+def _consume_tuple_field(body, tl, k, ty, depth):
+    """(a, b) = (f()?, ...) written as a tuple first: follow the moves of field k of the tuple local"""
+    if depth > 12:
+        return None
+    classes = []
+    for b in sorted(body.live_blocks):
+        for st in body.blocks[b]['stmts']:
+            if st['k'] == 'assign' and st['rv']['k'] == 'use':
+                opl = op_place(st['rv']['op'])
+                if opl is not None and opl['l'] == tl and _is_field_k(opl['p'], k) and not st['pl']['p']:
+                    classes.append(consume_local(body, st['pl']['l'], ty, depth + 1))
+        t = body.blocks[b]['term']
+        if t['k'] == 'call':
+            for a in t['args']:
+                apl = op_place(a)
+                if apl is not None and apl['l'] == tl and _is_field_k(apl['p'], k):
+                    cc = Call(body, b, t)
+                    if cc.callee == TRY_BRANCH:
+                        classes.append(('try', '? at %s' % cc.where()))
+                    else:
+                        classes.append(('passed', 'passed to %s' % (cc.rdef or cc.callee)))
+    if not classes:
+        # the whole tuple may be moved on (e.g. into a pattern local) : follow one hop
+        for b, i, pl, rv in body.assigns():
+            if rv['k'] == 'use' and op_local(rv['op']) == tl and not pl['p']:
+                return _consume_tuple_field(body, pl['l'], k, ty, depth + 1)
+        return None
+    order = ['defaulted', 'dropped', 'tested-only', 'match-swallow', 'unknown', 'other', 'stored', 'passed', 'unwrap', 'match', 'combinator', 'try', 'tail']
+    classes.sort(key=lambda x: order.index(x[0]) if x[0] in order else 0)
+    return classes[0]
 
 
 def _after_comb(body, cc, m, depth):
